@@ -32,9 +32,21 @@ InsFnItems(t) ==
 \* (front or back) is gtirb-layout's choice, not part of any property: observed.
 InsFnInFront(t) ==
   \E i \in DOMAIN t.post.syms : t.post.syms[i].n = t.insfn.name /\ t.post.syms[i].k = "blk" /\ t.post.syms[i].p = 0
+\* retarget_symbol_uses(old, new), applied after the block edits: every mention of
+\* old in an operand or data word now names new (t.retarget = <<old, new>> or <<>>)
+HasRetarget(t) == "retarget" \in DOMAIN t /\ t.retarget # <<>>
+RetargetName(t, nm) == IF HasRetarget(t) /\ nm = t.retarget[1] THEN t.retarget[2] ELSE nm
+RetargetItem(t, it) ==
+  IF it.t # "unit" THEN it
+  ELSE [it EXCEPT !.tg = RetargetName(t, it.tg), !.tgb = RetargetName(t, it.tgb),
+                  !.sx = [j \in 1..Len(it.sx) |->
+                            [it.sx[j] EXCEPT !.d = IF Len(it.sx[j].d) >= 2 /\ it.sx[j].d[1] = "C"
+                                                   THEN [it.sx[j].d EXCEPT ![2] = RetargetName(t, it.sx[j].d[2])]
+                                                   ELSE it.sx[j].d]]]
 Ctx(t) ==
   LET E == [nm \in SecNames(t.pre) |->
-              LET body == Edit(t.pre, t.reqs, Flat(SecByName(t.pre, nm)))
+              LET body0 == Edit(t.pre, t.reqs, Flat(SecByName(t.pre, nm)))
+                  body == IF HasRetarget(t) THEN [i \in 1..Len(body0) |-> RetargetItem(t, body0[i])] ELSE body0
                   fnIt == IF nm = ".text" THEN InsFnItems(t) ELSE <<>>
               IN  IF fnIt # <<>> /\ InsFnInFront(t) THEN fnIt \o body ELSE body \o fnIt]
   IN  [t |-> t, E |-> E, P |-> [nm \in SecNames(t.pre) |-> PosSeq(E[nm])], reqs |-> t.reqs]
